@@ -630,12 +630,137 @@ func failedWriteRollback(c *Ctx, call *ssa.Call) (bool, string) {
 				continue
 			}
 			if calleeKey(&cc.Call) == "(*os.File).Truncate" {
+				if pr := truncateProblems(c, call.Parent()); pr != "" {
+					return false, pr
+				}
 				return true, "the failure branch truncates the file by the bytes of the partial line"
 			}
 			if g := c.staticPkgCallee(&cc.Call); g != nil && truncates(g) {
-				return true, "the failure branch calls " + g.Name() + "(…, n), which reaches (*os.File).Truncate"
+				for h := range c.pkgReach(g) {
+					if pr := truncateProblems(c, h); pr != "" {
+						return false, "the failure branch calls " + g.Name() + "(…, n), but " + pr
+					}
+				}
+				return true, "the failure branch calls " + g.Name() + "(…, n), which reaches (*os.File).Truncate with the offset minus the count, whenever the offset covers the count"
 			}
 		}
 	}
 	return false, "the failure branch does not cut the partial line off again (no call reaching (*os.File).Truncate with the write's byte count)"
+}
+
+// truncateProblems: in fn, every (*os.File).Truncate call that cuts a partial line off must
+// (a) be given exactly `current offset - count` - the offset read with Seek(0, io.SeekCurrent),
+// the count without further arithmetic - and (b) happen whenever the offset covers the count:
+// a guard comparing the two may exclude `offset < count` only. `offset > count` (or `!=`) leaves
+// the torn line in place exactly when it is the first thing in the file.
+func truncateProblems(c *Ctx, fn *ssa.Function) string {
+	problem := ""
+	dependsOnSeek := func(v ssa.Value) bool {
+		found := false
+		var walk func(v ssa.Value, d int)
+		walk = func(v ssa.Value, d int) {
+			if found || d > 8 {
+				return
+			}
+			if ex, ok := v.(*ssa.Extract); ok {
+				if call, ok := ex.Tuple.(*ssa.Call); ok && calleeKey(&call.Call) == "(*os.File).Seek" {
+					found = true
+					return
+				}
+			}
+			if in, ok := v.(ssa.Instruction); ok {
+				for _, op := range in.Operands(nil) {
+					if *op != nil {
+						walk(*op, d+1)
+					}
+				}
+			}
+		}
+		walk(v, 0)
+		return found
+	}
+	bare := func(v ssa.Value) ssa.Value {
+		for {
+			v = peel(v)
+			switch x := v.(type) {
+			case *ssa.Convert:
+				v = x.X
+				continue
+			case *ssa.ChangeType:
+				v = x.X
+				continue
+			}
+			return v
+		}
+	}
+	allInstrs(fn, func(i ssa.Instruction) {
+		call, ok := i.(*ssa.Call)
+		if !ok || calleeKey(&call.Call) != "(*os.File).Truncate" || len(call.Call.Args) != 2 || problem != "" {
+			return
+		}
+		arg := peel(call.Call.Args[1])
+		sub, ok := arg.(*ssa.BinOp)
+		if !ok || sub.Op != token.SUB {
+			if dependsOnSeek(arg) {
+				problem = "the new length handed to Truncate at " + c.InstrPos(i) + " is not `current offset - count`"
+			}
+			return // a truncation to a constant length etc. is not the rollback
+		}
+		offV, cntV := bare(sub.X), bare(sub.Y)
+		if ex, isEx := offV.(*ssa.Extract); !isEx || ex.Index != 0 || !dependsOnSeek(offV) {
+			problem = "the new length handed to Truncate at " + c.InstrPos(i) + " is not the offset reported by Seek minus the count (extra arithmetic on the offset)"
+			return
+		}
+		switch cntV.(type) {
+		case *ssa.Parameter, *ssa.Extract:
+		default:
+			problem = "the new length handed to Truncate at " + c.InstrPos(i) + " subtracts something else than the byte count of the failed write (extra arithmetic on the count)"
+			return
+		}
+		for _, f := range allFacts(call.Block()) {
+			bo, ok := f.Cond.(*ssa.BinOp)
+			if !ok {
+				continue
+			}
+			x, y := bare(bo.X), bare(bo.Y)
+			op := bo.Op
+			switch {
+			case x == offV && y == cntV:
+			case x == cntV && y == offV:
+				switch op {
+				case token.LSS:
+					op = token.GTR
+				case token.GTR:
+					op = token.LSS
+				case token.LEQ:
+					op = token.GEQ
+				case token.GEQ:
+					op = token.LEQ
+				}
+			default:
+				continue
+			}
+			if !f.Pol {
+				switch op {
+				case token.LSS:
+					op = token.GEQ
+				case token.GEQ:
+					op = token.LSS
+				case token.GTR:
+					op = token.LEQ
+				case token.LEQ:
+					op = token.GTR
+				case token.EQL:
+					op = token.NEQ
+				case token.NEQ:
+					op = token.EQL
+				}
+			}
+			// the relation `offset op count` that holds where the truncation happens
+			if op == token.GTR || op == token.NEQ || op == token.LSS {
+				problem = fmt.Sprintf("the truncation at %s happens only when offset %s count: a partial line that is the first thing in the file (offset == count) is left in place", c.InstrPos(i), op)
+			}
+		}
+	})
+	return problem
 }
